@@ -73,6 +73,7 @@ static bool gen_c19(uint64_t seed, const std::string &tier, uint64_t i, Plan &p)
   if (ending <= 2) cmd("QUIT"); else if (ending == 3) p.ops.push(Json::obj().set("op", "close")); else { /* just stop: disconnect without QUIT */ }
   if (mode == 2) p.knobs.set("lockstep", false);
   p.label = std::string(popup ? "popup+" : "") + "pop3d files=" + std::to_string(n) + " commands=" + std::to_string(nc) + (mode == 3 ? " +MUA" : "") + (mode == 2 ? " pipelined" : "") + (ending <= 2 ? " QUIT" : " no-QUIT");
+  if (r.chance(0.15)) { Fault f; f.actor = "qmail-pop3d"; f.call = C_MALLOC; f.nth = (int)r.range(1, 40); f.kind = "null"; p.faults.push_back(f); }   // out of memory while the maildir is scanned or a message is sent
   add_short_io(r, p, "qmail-pop3d", 0.25, true);
   return true;
 }
